@@ -37,8 +37,9 @@ DOCS = [
     "@a{凯, author = {凯撒}, j = {测试期刊}}\n",
     "free text\n@a{k1, f = {1}}\n@a{k1, f = {2}}\n@b{k2, g = {1}, g = {2}}\n@c{broken\n",
     "\xff\xfe text that starts like a byte-order mark when stored as latin-1\n@a{k9, t = {\xfe\xff \xe9}}\n",
+    "\ufeff% a document whose first character is U+FEFF (it is content: parse_string keeps it)\n@a{k10, t = {x\ufeffy}}\n",
 ]
-ENCODINGS = {0: ["utf-8", "latin-1", "gbk", "utf-16", "ascii"], 1: ["utf-8", "latin-1", "gbk", "utf-16"], 2: ["utf-8", "latin-1", "utf-16"], 3: ["utf-8", "gbk", "utf-16"], 4: ["utf-8", "utf-16"], 5: ["latin-1", "utf-8", "utf-16", "utf-16-le"]}
+ENCODINGS = {0: ["utf-8", "latin-1", "gbk", "utf-16", "ascii"], 1: ["utf-8", "latin-1", "gbk", "utf-16"], 2: ["utf-8", "latin-1", "utf-16"], 3: ["utf-8", "gbk", "utf-16"], 4: ["utf-8", "utf-16"], 5: ["latin-1", "utf-8", "utf-16", "utf-16-le"], 6: ["utf-8", "utf-16-le", "utf-16-be"]}
 
 
 class Tag(BlockMiddleware):
@@ -656,8 +657,89 @@ def check_shared_buffer(acc):
                     )
 
 
+class RunOnce(BlockMiddleware):
+    """Removes itself from the list it was handed in (a caller's run-once idiom); tags like Tag."""
+
+    def __init__(self, stack, tag):
+        super().__init__(allow_inplace_modification=True)
+        self.stack, self.tag = stack, tag
+
+    def transform_entry(self, entry, library):
+        entry.key = entry.key + self.tag
+        if self in self.stack:
+            self.stack.remove(self)
+        return entry
+
+
+class KeyTag(BlockMiddleware):
+    def __init__(self, tag):
+        super().__init__(allow_inplace_modification=True)
+        self.tag = tag
+
+    def transform_entry(self, entry, library):
+        entry.key = entry.key + self.tag
+        return entry
+
+
+class AddsDuringPass(BlockMiddleware):
+    """A block hook that adds a block to the library it is given while the pass runs (the docstring allows changing the
+    library when in-place modification is allowed)."""
+
+    def __init__(self):
+        super().__init__(allow_inplace_modification=True)
+        self.done = False
+
+    def transform_entry(self, entry, library):
+        if not self.done:
+            self.done = True
+            library.add(Entry("note", "added_during_the_pass", [Field("n", "{1}")]))
+        entry.key = entry.key + "<seen>"
+        return entry
+
+
+def check_live_stack(acc):
+    """(a) The stack is the sequence the caller handed in AT THE CALL: a middleware that edits that list while the stack
+    runs changes nothing of this call.  (b) A block added to the library by a hook during the pass is a block of that
+    library: the entry point gives what the same middleware gives when folded by hand."""
+    doc = "@a{k, t = {1}}\n@b{j, u = {2}}\n"
+    for pos in ("parse_stack", "append_middleware", "unparse_stack", "prepend_middleware"):
+        case = {"live_stack": pos}
+        acc.trace(2)
+        acc.case(nontrivial_key=("livestack", pos))
+        try:
+            stack = []
+            stack.extend([RunOnce(stack, "a"), KeyTag("b"), KeyTag("c")])
+            if pos in ("parse_stack", "append_middleware"):
+                lib = bibtexparser.parse_string(doc, **{pos: stack})
+                got = [b.key for b in lib.entries]
+            else:
+                lib = bibtexparser.parse_string(doc)
+                out = bibtexparser.write_string(lib, **{pos: stack})
+                got = sorted(k for k in ("kabc", "jabc", "kac", "jac", "kab", "jab") if "{" + k + "," in out)
+            exp = ["kabc", "jabc"] if pos in ("parse_stack", "append_middleware") else ["jabc", "kabc"]
+        except Exception as ex:
+            acc.exception(ex, case, "a stack list edited while it runs")
+            continue
+        if got != exp:
+            acc.violation({"oracle": "entry_point_equals_folded_stack", "kind": "the caller's list edited during the call", "position": pos}, {"case": case, "observed": got, "expected": exp})
+    for pos in ("parse_stack", "append_middleware"):
+        case = {"adds_during_pass": pos}
+        acc.trace(2)
+        acc.case(nontrivial_key=("addsduringpass", pos))
+        try:
+            got = cmp_lib(("ok", bibtexparser.parse_string(doc, **{pos: [AddsDuringPass(), KeyTag("!")]})))
+            pre = default_parse() if pos == "append_middleware" else []
+            exp = cmp_lib(("ok", fold(pre + [AddsDuringPass(), KeyTag("!")], Splitter(doc).split())))
+        except Exception as ex:
+            acc.exception(ex, case, "a hook that adds to the library")
+            continue
+        if got != exp:
+            acc.violation({"oracle": "entry_point_equals_folded_stack", "kind": "block added by a hook during the pass", "position": pos}, {"case": case, "observed": repr(got)[:300], "expected": repr(exp)[:300]})
+
+
 def check_protocol(acc):
     check_key_collision(acc)
+    check_live_stack(acc)
     check_mixed_protocol(acc)
     check_shared_buffer(acc)
     for kind in KINDS:
@@ -942,7 +1024,7 @@ def replay(case, acc):
     with tempfile.TemporaryDirectory(prefix="verif-c20-") as tmpdir:
         if "stack_idx" in case:
             check_stack(POSITIONS.index(case["position"]), case["doc"], tuple(case["stack_idx"]), case["container"], acc, tmpdir)
-        elif "protocol" in case or "mixed_protocol" in case:
+        elif "protocol" in case or "mixed_protocol" in case or "live_stack" in case or "adds_during_pass" in case:
             check_protocol(acc)
         elif "hooks" in case:
             check_hooks(acc, "quick" if len(case["hooks"]) <= 2 else "thorough")
